@@ -57,6 +57,7 @@ type PredSpec struct {
 	Ret       string // "bool" for preds
 	Rec       bool   // the body calls the function itself
 	Decreases Expr   // measure of a recursive spec function
+	BvAbs     bool   // `bvfun`: bit-level definition; abstract (uninterpreted over the memory it reads) in mode int
 	AsFun     bool   // `fun`: kept as an uninterpreted function with a definitional axiom (gives quantifiers over its arguments a trigger)
 	Body      Expr
 	Text      string
@@ -83,7 +84,7 @@ type ContractFile struct {
 	TableOrder []string
 }
 
-var kwRe = regexp.MustCompile(`^(func|fun|pred|spec|requires|ensures|invariant|decreases|modifies|loop|inline|trusted|pure|mode|check-overflow|assume-note|option|table|fact)\b`)
+var kwRe = regexp.MustCompile(`^(func|fun|bvfun|pred|spec|requires|ensures|invariant|decreases|modifies|loop|inline|trusted|pure|mode|check-overflow|assume-note|option|table|fact)\b`)
 
 // ParseContractFile reads //@ lines.
 func ParseContractFile(path string) (*ContractFile, error) {
@@ -159,7 +160,7 @@ func ParseContractFile(path string) (*ContractFile, error) {
 			cf.Funcs[name] = cur
 			cf.Order = append(cf.Order, name)
 			curLoop = nil
-		case "pred", "spec", "fun":
+		case "pred", "spec", "fun", "bvfun":
 			txt := it.text
 			if it.kw == "spec" {
 				txt = strings.TrimSpace(strings.TrimPrefix(strings.TrimSpace(txt), "func"))
@@ -170,6 +171,7 @@ func ParseContractFile(path string) (*ContractFile, error) {
 			}
 			ps.File, ps.Line = path, it.line
 			ps.AsFun = it.kw == "fun"
+			ps.BvAbs = it.kw == "bvfun"
 			cf.Preds[ps.Name] = ps
 			cur = nil
 			curTable = nil
